@@ -405,8 +405,9 @@ def _kept_cell_classes(v, cell):
   out = set()
   # the row id was used (and removed) earlier in the bundle: a stale pending evaluation of that id
   readded = any(i2 < i for i2, _b in mine)
-  if a["op"] == "Add" and kc["when"] != NEVER and \
-     ((kc["when"] == DEFAULT and [d for d in kc["deps"] if d != col]) or readded):
+  # (the plain case - AddRecord supplying a value for a DEFAULT column with recalcDeps - was repaired in
+  #  /repo: docactions.BulkAddRecord now calls prevent_recalc; what is left is the re-used row id)
+  if a["op"] == "Add" and kc["when"] != NEVER and readded:
     out.add("add")
   if a["op"] == "Upd" and had == x and kc["when"] != NEVER:
     out.add("same")
